@@ -132,3 +132,27 @@ package bytecode
 //@   ensures widened_same_target: len(result) != len(ops) + addrLen ==> len(result) + sdisp(result, len(result) - 4, 4) == len(ops) + addrLen + val + add
 //@   panics_only_if cannot_encode: !(addrLen == 1 || addrLen == 2 || addrLen == 4 || addrLen == 8) || (addrLen == 1 && !fits8(val + add) && !has(opExpand, uint32(ops[0])))
 //@     | || (addrLen == 2 && !fits16(val + add))
+
+// ---- instruction parsing ----------------------------------------------------------------------------------------
+
+// ins_at(b, pos, ins): *ins is what the decoder reports for the (at most 16) bytes of b starting at pos.
+//@ pure func window_end(pos int, n int) int = ite(pos + 16 > n, n, pos + 16)
+//@ pure func ins_at(ins *x86asm.Inst, b []byte, pos int) bool = ins != nil && *ins == x86asm.x86_decode(contents(b), off(b) + uintptr(pos), window_end(pos, len(b)) - pos, 64)
+
+//@ func ParseIns
+//@   props C03 C16
+//@   requires pos_ok: 0 <= pos && arr(copyOrigin) != textref
+//@   assigns nothing
+//@   ensures past_end: pos >= len(copyOrigin) ==> result0 == nil && result2 == nil
+//@   ensures parsed: pos < len(copyOrigin) ==> ins_at(result0, copyOrigin, pos) && fresh(result0) && result1 == copyOrigin[pos : window_end(pos, len(copyOrigin))]
+//@   ensures honours_decoder_contract: pos < len(copyOrigin) && result2 == nil ==> x86asm.decoded_ok(*result0, len(copyOrigin) - pos)
+//@   ensures short_branch_shape: pos < len(copyOrigin) && result2 == nil && x86asm.is_short_branch_opcode(copyOrigin[pos]) ==> result0.Len == 2 && result0.PCRelOff == 1 && result0.PCRel == 1
+//@   ensures rel16_has_prefix: pos < len(copyOrigin) && result2 == nil && result0.PCRelOff > 0 && result0.PCRel == 2 ==> copyOrigin[pos] != 0
+
+// The sign of the displacement is re-derived from the printed operand ('.-' / 'RIP-'); that this
+// agrees with the sign of the encoded field is ASSUMED (no specification of Arg.String()).
+//@ trusted func DecodeRelativeAddr
+//@   props C03
+//@   requires field: ins != nil && 0 <= offset && (ins.PCRel == 1 || ins.PCRel == 2 || ins.PCRel == 4 || ins.PCRel == 8) && offset + ins.PCRel <= len(block)
+//@   assigns nothing
+//@   ensures value: result == sdisp(block, offset, ins.PCRel)
